@@ -6,11 +6,12 @@
    always completes, and Messages queued before the thread was started are delivered once it starts.
 
    The statements are about the LTS of Conc/ThreadQ.v: every reachable state = every interleaving of the atomic steps
-   of any number of threads running any programs over the API, for both signalling mechanisms ([m]: socket pair /
-   wait-condition) and both ways of writing the internal thread ([e]: default loop / event-driven), every reaction
-   [react] of the subclass to a Message, with sizeof(bytes) of WaitForNextMessageAux taken from the current sources.
-   [mode_ok ok e]: nothing is asked of the programs for the default InternalThreadEntry; for the event-driven one the
-   contract is "only the owner sends to the internal thread" (c11_evd_lost_wakeup_refuted is what happens without it).
+   of any number of threads running any programs over the API ([ok]: any restriction on the programs, none needed),
+   for both signalling mechanisms ([m]: socket pair / wait-condition) and both ways of writing the internal thread
+   ([e]: default loop / event-driven), every reaction [react] of the subclass to a Message, with sizeof(bytes) of
+   WaitForNextMessageAux taken from the current sources, and StartInternalThread as repaired (first argument [false]:
+   needsInitialSignal is read under the lock after the socket pair and the thread exist).  For the order the code had
+   before (first argument [true]) c11_evd_lost_wakeup_refuted exhibits the lost wake-up.
    "Always wakes / completes" is proved in its safety form: an enabled step of the blocked thread, or of a thread that
    still owes it the signal, exists (DESIGN.md section 3). *)
 From Coq Require Import List Arith Bool NArith.
@@ -21,7 +22,7 @@ Import ListNotations.
 Definition ABS : nat := N.to_nat c_thread_signal_absorb_size.
 
 (* exactly once, in order: at every moment what was sent = what was received followed by what is still queued *)
-Theorem c11_fifo_exactly_once : forall react ok m e s c, reachable_if ABS react ok m e s ->
+Theorem c11_fifo_exactly_once : forall react ok m e s c, reachable_if false ABS react ok m e s ->
   c_sent (ch (s_g s) c) = c_rcvd (ch (s_g s) c) ++ c_q (ch (s_g s) c).
 Proof. exact (fifo_exactly_once ABS). Qed.
 Print Assumptions c11_fifo_exactly_once.
@@ -29,85 +30,86 @@ Print Assumptions c11_fifo_exactly_once.
 (* ... and over any stretch of execution: what is received during it is, in this order, what was queued at its
    beginning followed by what was appended during it *)
 Theorem c11_fifo_no_overtaking : forall react ok m e s s' c,
-  reachable_if ABS react ok m e s -> steps_if ABS react ok s s' ->
+  reachable_if false ABS react ok m e s -> steps_if false ABS react ok s s' ->
   exists got more,
     c_rcvd (ch (s_g s') c) = c_rcvd (ch (s_g s) c) ++ got /\
     c_sent (ch (s_g s') c) = c_sent (ch (s_g s) c) ++ more /\
     got ++ c_q (ch (s_g s') c) = c_q (ch (s_g s) c) ++ more.
-Proof. exact (fifo_no_overtaking ABS). Qed.
+Proof. exact (fifo_no_overtaking false ABS). Qed.
 Print Assumptions c11_fifo_no_overtaking.
 
-Theorem c11_no_lost_wakeup_internal : forall react ok m e s, mode_ok ok e -> reachable_if ABS react ok m e s ->
+Theorem c11_no_lost_wakeup_internal : forall react ok m e s, reachable_if false ABS react ok m e s ->
   g_ist (s_g s) = ILive ->
   (exists w, l_pc (g_il (s_g s)) = PRecvPark CI w) \/ l_pc (g_il (s_g s)) = PIEvWait ->
   c_q (g_ci (s_g s)) <> [] ->
   readable (s_g s) CI = true \/ exists t, is_pend_i (l_pc (s_l s t)) = true.
-Proof. exact (T_no_lost_wakeup_internal ABS). Qed.
+Proof. exact (no_lost_wakeup_internal ABS). Qed.
 Print Assumptions c11_no_lost_wakeup_internal.
 
-Theorem c11_no_lost_wakeup_owner : forall react ok m e s w, mode_ok ok e -> reachable_if ABS react ok m e s ->
+Theorem c11_no_lost_wakeup_owner : forall react ok m e s w, reachable_if false ABS react ok m e s ->
   l_pc (s_l s 0) = PRecvPark CO w -> c_q (g_co (s_g s)) <> [] ->
   readable (s_g s) CO = true \/ (exists t, l_pc (s_l s t) = PSendSig CO true) \/
   (g_ist (s_g s) = ILive /\ l_pc (g_il (s_g s)) = PSendSig CO true).
-Proof. exact (T_no_lost_wakeup_owner ABS). Qed.
+Proof. exact (fun react ok m e s w => no_lost_wakeup_owner ABS react ok m e s w). Qed.
 Print Assumptions c11_no_lost_wakeup_owner.
 
-Theorem c11_internal_never_stuck : forall react ok m e s, mode_ok ok e -> reachable_if ABS react ok m e s ->
+Theorem c11_internal_never_stuck : forall react ok m e s, reachable_if false ABS react ok m e s ->
   g_ist (s_g s) = ILive -> c_q (g_ci (s_g s)) <> [] ->
-  (exists x, sys_step ABS react s (LStep I CRun) = Some x) \/
-  (exists t x, is_pend_i (l_pc (s_l s t)) = true /\ sys_step ABS react s (LStep (U t) CRun) = Some x).
-Proof. exact (T_internal_never_stuck ABS). Qed.
+  (exists x, sys_step false ABS react s (LStep I CRun) = Some x) \/
+  (exists t x, is_pend_i (l_pc (s_l s t)) = true /\ sys_step false ABS react s (LStep (U t) CRun) = Some x).
+Proof. exact (internal_never_stuck ABS). Qed.
 Print Assumptions c11_internal_never_stuck.
 
-Theorem c11_owner_never_stuck : forall react ok m e s w, mode_ok ok e -> reachable_if ABS react ok m e s ->
+Theorem c11_owner_never_stuck : forall react ok m e s w, reachable_if false ABS react ok m e s ->
   l_pc (s_l s 0) = PRecvPark CO w -> c_q (g_co (s_g s)) <> [] ->
-  (exists x, sys_step ABS react s (LStep (U 0) CRun) = Some x) \/
-  (exists t x, l_pc (s_l s t) = PSendSig CO true /\ sys_step ABS react s (LStep (U t) CRun) = Some x) \/
-  (l_pc (g_il (s_g s)) = PSendSig CO true /\ exists x, sys_step ABS react s (LStep I CRun) = Some x).
-Proof. exact (T_owner_never_stuck ABS). Qed.
+  (exists x, sys_step false ABS react s (LStep (U 0) CRun) = Some x) \/
+  (exists t x, l_pc (s_l s t) = PSendSig CO true /\ sys_step false ABS react s (LStep (U t) CRun) = Some x) \/
+  (l_pc (g_il (s_g s)) = PSendSig CO true /\ exists x, sys_step false ABS react s (LStep I CRun) = Some x).
+Proof. exact (fun react ok m e s w => owner_never_stuck ABS react ok m e s w). Qed.
 Print Assumptions c11_owner_never_stuck.
 
-Theorem c11_shutdown_completes : forall react ok m e s, mode_ok ok e -> reachable_if ABS react ok m e s ->
+Theorem c11_shutdown_completes : forall react ok m e s, reachable_if false ABS react ok m e s ->
   l_pc (s_l s 0) = PJoinWait -> l_k (s_l s 0) = [KDiscard] ->
-  (g_ist (s_g s) = IExited /\ exists x, sys_step ABS react s (LStep (U 0) CRun) = Some x) \/
+  (g_ist (s_g s) = IExited /\ exists x, sys_step false ABS react s (LStep (U 0) CRun) = Some x) \/
   (g_ist (s_g s) = ILive /\
    (In None (c_q (g_ci (s_g s))) \/ exiting (l_pc (g_il (s_g s))) = true) /\
-   ((exists x, sys_step ABS react s (LStep I CRun) = Some x) \/
-    (exists t x, is_pend_i (l_pc (s_l s t)) = true /\ sys_step ABS react s (LStep (U t) CRun) = Some x))).
-Proof. exact (T_shutdown_completes ABS). Qed.
+   ((exists x, sys_step false ABS react s (LStep I CRun) = Some x) \/
+    (exists t x, is_pend_i (l_pc (s_l s t)) = true /\ sys_step false ABS react s (LStep (U t) CRun) = Some x))).
+Proof. exact (shutdown_completes ABS). Qed.
 Print Assumptions c11_shutdown_completes.
 
-Theorem c11_queued_before_start_delivered : forall react ok m e s s', mode_ok ok e -> reachable_if ABS react ok m e s ->
-  g_running (s_g s) = false -> steps_if ABS react ok s s' ->
+Theorem c11_queued_before_start_delivered : forall react ok m e s s', reachable_if false ABS react ok m e s ->
+  g_running (s_g s) = false -> steps_if false ABS react ok s s' ->
   (exists got more,
      c_rcvd (g_ci (s_g s')) = c_rcvd (g_ci (s_g s)) ++ got /\
      got ++ c_q (g_ci (s_g s')) = c_q (g_ci (s_g s)) ++ more) /\
   (g_ist (s_g s') = ILive -> c_q (g_ci (s_g s')) <> [] ->
-   (exists x, sys_step ABS react s' (LStep I CRun) = Some x) \/
-   (exists t x, is_pend_i (l_pc (s_l s' t)) = true /\ sys_step ABS react s' (LStep (U t) CRun) = Some x)).
-Proof. exact (T_queued_before_start_delivered ABS). Qed.
+   (exists x, sys_step false ABS react s' (LStep I CRun) = Some x) \/
+   (exists t x, is_pend_i (l_pc (s_l s' t)) = true /\ sys_step false ABS react s' (LStep (U t) CRun) = Some x)).
+Proof. exact (queued_before_start_delivered ABS). Qed.
 Print Assumptions c11_queued_before_start_delivered.
 
 (* the deadlock detector's verdict: a state in which nothing can move holds no undelivered Message for a blocked reader *)
-Theorem c11_stuck_only_when_nothing_to_receive : forall react ok m e s, mode_ok ok e -> reachable_if ABS react ok m e s ->
-  (forall w c, sys_step ABS react s (LStep w c) = None) ->
+Theorem c11_stuck_only_when_nothing_to_receive : forall react ok m e s, reachable_if false ABS react ok m e s ->
+  (forall w c, sys_step false ABS react s (LStep w c) = None) ->
   (g_ist (s_g s) = ILive -> c_q (g_ci (s_g s)) = []) /\
   (forall w, l_pc (s_l s 0) = PRecvPark CO w -> c_q (g_co (s_g s)) = []).
-Proof. exact (T_stuck_only_when_nothing_to_receive ABS). Qed.
+Proof. exact (stuck_only_when_nothing_to_receive ABS). Qed.
 Print Assumptions c11_stuck_only_when_nothing_to_receive.
 
-Theorem c11_running_iff_thread_exists : forall react ok m e s, reachable_if ABS react ok m e s ->
+Theorem c11_running_iff_thread_exists : forall react ok m e s, reachable_if false ABS react ok m e s ->
   g_running (s_g s) = negb (ist_none (g_ist (s_g s))) /\
   (g_ist (s_g s) = ILive -> g_sockets (s_g s) = true -> g_alloc (s_g s) = true /\ g_iopen (s_g s) = true).
 Proof. exact (running_iff_thread_exists ABS). Qed.
 Print Assumptions c11_running_iff_thread_exists.
 
-(* the event-driven InternalThreadEntry without the contract: a wake-up is lost (witness schedule in ThreadQProofs) *)
+(* StartInternalThread in the order it was found (finding F47, since repaired in /repo): an event-driven internal thread
+   loses a wake-up (witness schedule refute_labels in ThreadQProofs, replayed on the real code) *)
 Theorem c11_evd_lost_wakeup_refuted : forall react,
-  exists s, reachable ABS react true true s /\
+  exists s, reachable true ABS react true true s /\
     g_ist (s_g s) = ILive /\ l_pc (g_il (s_g s)) = PIEvWait /\ c_q (g_ci (s_g s)) = [Some 7] /\
     readable (s_g s) CI = false /\ (forall t, l_pc (s_l s t) = PIdle) /\
-    (forall w c, sys_step ABS react s (LStep w c) = None).
+    (forall w c, sys_step true ABS react s (LStep w c) = None).
 Proof. exact (evd_lost_wakeup_refuted ABS). Qed.
 Print Assumptions c11_evd_lost_wakeup_refuted.
 
@@ -123,43 +125,44 @@ Proof. exact (absorb_drains ABS). Qed.
 Print Assumptions c11_absorb_drains.
 
 (* non-vacuity: reachable, non-trivial states satisfying the premises *)
-Example c11_ex_internal_parked : exists s, reachable_if ABS react0 any_label true false s /\
+Example c11_ex_internal_parked : exists s, reachable_if false ABS react0 any_label true false s /\
   g_ist (s_g s) = ILive /\ l_pc (g_il (s_g s)) = PRecvPark CI WNever /\ c_q (g_ci (s_g s)) = [Some 5] /\
   readable (s_g s) CI = false /\ l_pc (s_l s 1) = PSendSig CI true.
 Proof. exact (ex_internal_parked ABS). Qed.
 
-Example c11_ex_internal_parked_wc : exists s, reachable_if ABS react0 any_label false false s /\
+Example c11_ex_internal_parked_wc : exists s, reachable_if false ABS react0 any_label false false s /\
   g_ist (s_g s) = ILive /\ l_pc (g_il (s_g s)) = PRecvPark CI WNever /\ c_q (g_ci (s_g s)) = [Some 5] /\
   readable (s_g s) CI = false /\ l_pc (s_l s 1) = PSendSig CI true.
 Proof. exact (ex_internal_parked_wc ABS). Qed.
 
-Example c11_ex_owner_parked : exists s, reachable_if ABS react0 any_label true false s /\
+Example c11_ex_owner_parked : exists s, reachable_if false ABS react0 any_label true false s /\
   l_pc (s_l s 0) = PRecvPark CO WNever /\ c_q (g_co (s_g s)) = [Some 9] /\ l_pc (s_l s 1) = PSendSig CO true.
 Proof. exact (ex_owner_parked ABS). Qed.
 
-Example c11_ex_shutdown_waiting : exists s, reachable_if ABS react0 any_label true false s /\
+Example c11_ex_shutdown_waiting : exists s, reachable_if false ABS react0 any_label true false s /\
   l_pc (s_l s 0) = PJoinWait /\ l_k (s_l s 0) = [KDiscard] /\ g_ist (s_g s) = ILive /\ c_q (g_ci (s_g s)) = [None].
 Proof. exact (ex_shutdown_waiting ABS). Qed.
 
-Example c11_ex_shutdown_exited : exists s, reachable_if ABS react0 any_label true false s /\
+Example c11_ex_shutdown_exited : exists s, reachable_if false ABS react0 any_label true false s /\
   l_pc (s_l s 0) = PJoinWait /\ l_k (s_l s 0) = [KDiscard] /\ g_ist (s_g s) = IExited.
 Proof. exact (ex_shutdown_exited ABS). Qed.
 
-Example c11_ex_queued_before_start : exists s, reachable_if ABS react0 any_label true false s /\
+Example c11_ex_queued_before_start : exists s, reachable_if false ABS react0 any_label true false s /\
   g_running (s_g s) = false /\ c_q (g_ci (s_g s)) = [Some 1; Some 2] /\ c_sig (g_ci (s_g s)) = 0 /\ g_alloc (s_g s) = false.
 Proof. exact (ex_queued_before_start ABS). Qed.
 
-Example c11_ex_evd_parked : exists s, reachable_if ABS react0 owner_sends_ci true true s /\
+Example c11_ex_evd_parked : exists s, reachable_if false ABS react0 any_label true true s /\
   g_ist (s_g s) = ILive /\ l_pc (g_il (s_g s)) = PIEvWait /\ c_q (g_ci (s_g s)) = [Some 3] /\
-  readable (s_g s) CI = false /\ l_pc (s_l s 0) = PStartSig true.
+  readable (s_g s) CI = false /\ l_pc (s_l s 0) = PStartSpawned.
 Proof. exact (ex_evd_parked ABS). Qed.
 
-Example c11_ex_stuck : exists s, reachable_if ABS react0 any_label true false s /\
-  (forall w c, sys_step ABS react0 s (LStep w c) = None).
+(* the schedule of c11_evd_lost_wakeup_refuted on the repaired order: the wake-up is not lost *)
+Example c11_ex_race_repaired : exists s, reachable_if false ABS react0 any_label true true s /\
+  g_ist (s_g s) = ILive /\ l_pc (g_il (s_g s)) = PIEvWait /\ c_q (g_ci (s_g s)) = [Some 7] /\
+  readable (s_g s) CI = true.
+Proof. exact (ex_race_repaired ABS). Qed.
+
+Example c11_ex_stuck : exists s, reachable_if false ABS react0 any_label true false s /\
+  (forall w c, sys_step false ABS react0 s (LStep w c) = None).
 Proof. exact (ex_stuck ABS). Qed.
 
-Example c11_ex_mode_ok_default : mode_ok any_label false.
-Proof. exact ex_mode_ok_default. Qed.
-
-Example c11_ex_mode_ok_evd : mode_ok owner_sends_ci true.
-Proof. exact ex_mode_ok_evd. Qed.
